@@ -103,7 +103,7 @@ def main(argv):
         tier = 'quick'
     seed = int(os.environ.get('VERIF_SEED', '0') or 0)
     t0 = time.time()
-    ev_path = os.path.join(VERIF, 'evidence', pid + '.json')
+    ev_path = os.path.join(os.environ.get('VERIF_EVIDENCE_DIR', os.path.join(VERIF, 'evidence')), pid + '.json')
     os.makedirs(os.path.dirname(ev_path), exist_ok=True)
     if os.path.exists(ev_path):
         os.unlink(ev_path)
@@ -133,7 +133,7 @@ def main(argv):
             ctx._rec('ENGINE', 'exception-thorough', 'VIOLATION', tb[-1500:], None, 'ENGINE:exception-thorough')
 
     # floors: a rule that matches fewer instances than confirmed by hand fails closed
-    for name, r in ctx.rules.items():
+    for name, r in list(ctx.rules.items()):
         if r['floor'] is not None and r['count'] < r['floor']:
             ctx._rec('FLOOR', name, 'VIOLATION',
                      'rule %s matched %d instances, floor %d' % (name, r['count'], r['floor']),
